@@ -27,7 +27,7 @@ static void onCrash(const char* what) {
   if (write(1, buf, (size_t)n)) {}
 }
 extern "C" void __asan_on_error() { onCrash("asan"); }
-static void onSignal(int sig) { onCrash(sig == SIGSEGV ? "sigsegv" : "sigabrt"); _exit(3); }
+static void onSignal(int sig) { onCrash(sig == SIGSEGV ? "sigsegv" : sig == SIGALRM ? "timeout" : "sigabrt"); _exit(3); }
 
 struct Rng {
   unsigned long long s;
@@ -260,6 +260,7 @@ int main(int argc, char** argv) {
   if (argc < 4) { fprintf(stderr, "usage: doc_record out seed events [ndocs nrefs] [--events]\n"); return 2; }
   signal(SIGSEGV, onSignal);
   signal(SIGABRT, onSignal);
+  signal(SIGALRM, onSignal);
   std::ofstream out(argv[1]);
   unsigned long long seed = strtoull(argv[2], nullptr, 10);
   long events = atol(argv[3]);
@@ -331,6 +332,7 @@ int main(int argc, char** argv) {
     int len = 20 + (int)gen.g.next(120);
     for (int k = 0; k < len && written < events; k++) {
       g_line = written;
+      alarm(60);
       Op o = gen.make();
       if (withEvents) out << "{\"e\":\"begin\"}\n";
       std::string ret = exec(w, o, ks);
